@@ -34,8 +34,7 @@ def func(tree: ast.AST, qualname: str) -> ast.FunctionDef:
         found = None
         for ch in ast.iter_child_nodes(node):
             if isinstance(ch, (ast.FunctionDef, ast.ClassDef)) and ch.name == part:
-                found = ch
-                break
+                found = ch      # keep the last one: @overload stubs precede the implementation
         if found is None:
             raise SelectorMiss(f"no definition {qualname}")
         node = found
@@ -927,3 +926,125 @@ for _nm, _file, _q in [("Loader", "acryo/loader/_loader.py", "SubtomogramLoader.
             return True
         return sel
     add(f"binStructure{_nm}", "Bin", ["C15"], _file, "const", [], pattern(_bin_struct(_q)))
+
+
+# ==========================================================================================
+# C12 / C13  molecule tables
+# ==========================================================================================
+_CORE = "acryo/molecules/core.py"
+
+
+def _subset_int(t):
+    fn = func(t, "Molecules.subset")
+    node = first(fn, ast.If, lambda n: _unparse_norm(n.test) == "isinstance(spec,int)")
+    return list(node.body), ["_spec"]
+
+
+add("subsetIntIndex", "Table", ["C12"], _CORE, "func", [("spec", I), ("n", I)], _subset_int,
+    ret="(Int × Int)", subst={"len(self)": "n"})
+
+
+
+
+def _has(src, *needles):
+    flat = src.replace("\n", "").replace(" ", "")
+    for n in needles:
+        if n.replace(" ", "") not in flat:
+            raise SelectorMiss("missing: " + n)
+    return True
+
+
+def _setter(t):
+    cls = func(t, "Molecules")
+    setters = [n for n in cls.body if isinstance(n, ast.FunctionDef) and n.name == "features"
+               and any("setter" in ast.unparse(d) for d in n.decorator_list)]
+    if not setters:
+        raise SelectorMiss("features.setter")
+    return _has(ast.unparse(setters[0]),
+                "if len(df) != self.pos.shape[0]:", "raise ValueError(")
+
+
+add("featuresLengthChecked", "Table", ["C12"], _CORE, "const", [], pattern(_setter))
+add("rotLengthChecked", "Table", ["C12"], _CORE, "const", [],
+    pattern(lambda t: _has(ast.unparse(func(t, "Molecules.__init__")),
+                           "elif nmol > 0 and nmol != len(rot):", "raise ValueError(",
+                           "if _pos.shape[1] != 3:")))
+add("dupColumnsRejected", "Table", ["C12", "C13"], _CORE, "const", [],
+    pattern(lambda t: _has(ast.unparse(func(t, "Molecules.to_dataframe")),
+                           "if (dup := set(self.features.columns).intersection(_CSV_COLUMNS)):",
+                           "raise ValueError(")))
+add("appendExtraRejected", "Table", ["C12"], _CORE, "const", [],
+    pattern(lambda t: _has(ast.unparse(func(t, "Molecules.append")),
+                           "feat = pl.concat([self.features, other.features], how='diagonal')",
+                           "if len(feat.columns) != len(self.features.columns):", "raise ValueError(",
+                           "pos = np.concatenate([self.pos, other.pos], axis=0)",
+                           "rot = np.concatenate([self.quaternion(), other.quaternion()], axis=0)",
+                           "self._pos = pos", "self._rotator = Rotation.from_quat(rot)", "self._features = feat")))
+
+
+def _subset_parallel(t):
+    return _has(ast.unparse(func(t, "Molecules.subset")),
+                "pos = self.pos[_spec]", "quat = self.quaternion(canonical=False)[_spec]",
+                "self._features.filter(_spec)", "self._features[_spec]")
+
+
+add("subsetSameSpecForAll", "Table", ["C12"], _CORE, "const", [], pattern(_subset_parallel))
+
+
+def _df_ops(t):
+    cls = func(t, "Molecules")
+    want = {"filter": "df.filter(predicate)", "head": "df.head(n)", "tail": "df.tail(n)",
+            "sample": "df.sample(n, seed=seed)", "sort": "df.sort(by, *more_by, descending=descending)"}
+    for name, op in want.items():
+        src = ast.unparse(func(cls, name))
+        _has(src, "df = self.to_dataframe()", "from_dataframe(", op)
+    _has(ast.unparse(func(cls, "group_by")), "df = self.to_dataframe()", "maintain_order=True")
+    _has(ast.unparse(func(cls, "cutby")), "self.to_dataframe().with_columns(cat)", "maintain_order=True")
+    return True
+
+
+add("rowOpsThroughDataFrame", "Table", ["C12"], _CORE, "const", [], pattern(_df_ops))
+
+
+def _concat_parallel(t):
+    cls = func(t, "Molecules")
+    _has(ast.unparse(func(cls, "concat_with")),
+         "pos = np.concatenate([self.pos, other.pos], axis=0)",
+         "rot = np.concatenate([self.quaternion(), other.quaternion()], axis=0)",
+         "feat = pl.concat([self.features, other.features], how=how)")
+    _has(ast.unparse(func(cls, "concat")), "pos.append(mol.pos)", "quat.append(mol.quaternion())",
+         "features.append(mol.features)", "all_pos = np.concatenate(pos, axis=0)",
+         "all_quat = np.concatenate(quat, axis=0)", "all_features = pl.concat(features, how=how)")
+    return True
+
+
+add("concatParallel", "Table", ["C12"], _CORE, "const", [], pattern(_concat_parallel))
+
+
+def _csv_columns(t):
+    v = assign_rhs(t, "_CSV_COLUMNS")
+    if [e.value for e in v.elts] != ["z", "y", "x", "zvec", "yvec", "xvec"]:
+        raise SelectorMiss("_CSV_COLUMNS")
+    src = ast.unparse(func(t, "Molecules.to_dataframe"))
+    _has(src, "{'z': self.pos[:, 0], 'y': self.pos[:, 1], 'x': self.pos[:, 2], 'zvec': rotvec[:, 0], "
+              "'yvec': rotvec[:, 1], 'xvec': rotvec[:, 2]}", "df = df.with_columns(list(self._features))",
+         "rotvec = self.rotvec().astype(np.float32)")
+    return True
+
+
+add("columnLayout", "Table", ["C13"], _CORE, "const", [], pattern(_csv_columns))
+
+
+def _from_df(t):
+    return _has(ast.unparse(func(t, "Molecules.from_dataframe")),
+                "pos = df.select(pos_cols)", "rotvec = df.select(rot_cols)",
+                "feature_columns = [c for c in df.columns if c not in cols]",
+                "features = df.select(feature_columns)", "rot = Rotation.from_rotvec(rotvec.to_numpy())",
+                "return cls(pos.to_numpy(), rot, features=features)")
+
+
+add("fromDataFrameSelectsByName", "Table", ["C13"], _CORE, "const", [], pattern(_from_df))
+add("toFileIsParquet", "Table", ["C13"], _CORE, "expr", [("suffix", "Str")],
+    lambda t: first(func(t, "Molecules.to_file"), ast.If).test, subst={"save_path.suffix": "suffix"})
+add("fromFileIsParquet", "Table", ["C13"], _CORE, "expr", [("suffix", "Str")],
+    lambda t: first(func(t, "Molecules.from_file"), ast.If).test, subst={"path.suffix": "suffix"})
